@@ -113,7 +113,8 @@ class SeismicFileConverter(object):
         if header_detection != 'strip':
             for header_array in header_info.headers_dict.values():
                 # Pad to 512-bytes for page blobs
-                out_filehandle.write(header_array.tobytes() + bytes(512-len(header_array.tobytes()) % 512))
+                header_array_bytes = header_array.tobytes()
+                out_filehandle.write(header_array_bytes + bytes(-len(header_array_bytes) % 512))
 
     @staticmethod
     def write_hash(hash, out_filehandle):
@@ -444,7 +445,8 @@ class NumpyConverter(object):
     def write_headers(header_info, out_filehandle):
         for header_array in header_info.headers_dict.values():
             # Pad to 512-bytes for page blobs
-            out_filehandle.write(header_array.tobytes() + bytes(512-len(header_array.tobytes()) % 512))
+            header_array_bytes = header_array.tobytes()
+            out_filehandle.write(header_array_bytes + bytes(-len(header_array_bytes) % 512))
 
     @staticmethod
     def write_hash(hash, out_filehandle):
